@@ -853,7 +853,14 @@ int SimulateMsp430::two_operand_exe(uint16_t opcode)
       put_data(ea, dst_reg, Ad, bw, result);
       update_nz(result, bw);
       if (result != 0) { set_c(); } else { clear_c(); }
-      if ((src & 0x8000) && (dst & 0x8000)) { set_v(); } else { clear_v(); }
+      if (bw == BW_WORD)
+      {
+        if ((src & 0x8000) && (dst & 0x8000)) { set_v(); } else { clear_v(); }
+      }
+        else
+      {
+        if ((src & 0x80) && (dst & 0x80)) { set_v(); } else { clear_v(); }
+      }
       break;
     case 15: // AND
       src = get_data(src_reg, As, bw, ea);
